@@ -278,7 +278,9 @@ def canon(c, wire):
     init, counts, seats, stop, left = v[1]
 
     def al(a):
-        return tuple((repr(k), tuple((tuple(i if isinstance(i, int) else frozenset(i) for i in b), common.unq(w)) for b, w in p)) for k, p in a)
+        # a ballot entry of weight 0 holds no stretch of the range the draws are taken from: not compared
+        return tuple((repr(k), tuple((tuple(i if isinstance(i, int) else frozenset(i) for i in b), common.unq(w))
+                                     for b, w in p if common.unq(w) != 0)) for k, p in a)
     return ('ok', tuple(al(a) for a in init), tuple((al(a), tuple((k, s) for k, s in el)) for a, el in counts),
             tuple(sorted((k, s) for k, s in seats if s)), stop, left if stop in (0, common.E['VSE']) else None)
 
@@ -294,6 +296,9 @@ def spec(c, io, mo):
         problems.append('exception while checking: %r' % e)
     problems += tape.problems
     v = common.parse_sx(mo)
+    vi = common.parse_sx(io)
+    if vi[0] == 0 and v[0] == 0 and vi[1][3] == common.E['TYPE'] and v[1][3] != common.E['TYPE']:
+        problems.insert(0, 'the count raised TypeError although the number of ballots to draw (seats x quota) is a whole number')
     if v[0] == 0 and v[1][3] in (E_ORACLE, E_UNMODELLED, common.E['FUEL']):
         problems.append('the model stopped with code %d on a tape recorded from the implementation' % v[1][3])
     if problems:
